@@ -225,7 +225,7 @@ def make_fetcher(kind, fail_at):
 
 FETCH_KINDS = ['exception', 'oserror', 'boom', 'garbage', 'badbytes', 'badtuple']
 OPS = ['parse-malformed', 'parse-malformed', 'parse-bytes-bad', 'parse-bytes-bad-enc', 'parse-fetch-fault', 'parse-fetch-fault', 'parsefile-missing', 'parseurl-fault', 'parser-raising',
-       'parser-raising', 'parsestyle-bad', 'parsestyle-bytes', 'csscombine-fault', 'csscombine-ok', 'resolve-fault', 'replaceurls-fault', 'dom-reject', 'dom-reject', 'direct-objects',
+       'parser-raising', 'parsestyle-bad', 'parsestyle-bytes', 'csscombine-fault', 'csscombine-ok', 'resolve-fault', 'replaceurls-fault', 'serialise-fault', 'serialise-fault', 'dom-reject', 'dom-reject', 'direct-objects',
        'dom-mutator', 'dom-mutator', 'dom-mutator', 'restricted-profiles-roundtrip', 'parse-reentrant', 'parse-reentrant', 'serialise-weird', 'prefs-roundtrip', 'serializer-roundtrip', 'profile-roundtrip', 'validate-some', 'reuse-parser', 'reuse-parser', 'flip-mode', 'geturls', 'parse-ok', 'log-level']  # fmt: skip
 
 
@@ -367,6 +367,41 @@ class History:
                 c.replaceUrls(s, rep)
 
             out = self.sentinel_call(kind, fn)
+        elif kind == 'serialise-fault':
+            # a serialisation that dies half-way (the caller's own doing) says nothing about the next one
+            ctx.count('faults.injected')
+            which = r.randrange(4)
+
+            def fn():
+                s = c.parseString('@media tv{a{background:url(a.png);top:0}}b{background:url(b.png)}@page{@top-left{content:url(c.png)}}')
+                if which == 0:
+                    c.replaceUrls(s, lambda u: None)  # (a replacer that returns nothing)
+                    s.cssText
+                elif which == 1:
+                    old = c.ser.prefs.propertyNameSpacer
+                    c.ser.prefs.propertyNameSpacer = None
+                    try:
+                        s.cssText
+                    finally:
+                        c.ser.prefs.propertyNameSpacer = old
+                elif which == 2:
+                    class Bad:
+                        def __str__(self):
+                            raise RuntimeError('no text')
+
+                    old = c.ser.prefs.indent
+                    c.ser.prefs.indent = Bad()
+                    try:
+                        s.cssText
+                    finally:
+                        c.ser.prefs.indent = old
+                else:
+                    for rule in s.cssRules:
+                        if hasattr(rule, 'style'):
+                            rule.style.getProperties()[0].propertyValue._seq = None  # (a DOM object damaged by the caller)
+                    s.cssText
+
+            out = self.sentinel_call(kind, fn, parse_family=False)
         elif kind == 'geturls':
             out = self.sentinel_call(kind, lambda: list(c.getUrls(c.parseString('@import "i.css";a{background:url(a.png) url(b.png)}'))))
         elif kind == 'dom-reject':
